@@ -155,6 +155,7 @@ def explorer_cells(tier):
     # (d) two sessions on one pool
     cell("two sessions help|flush slowecb", tasks=1, slow_ecb=[0], sessions=[["flush", "num-ended", H], ["-h", "nope", "map --help"]])
     cell("two sessions errors|gac t1", tasks=1, sessions=[["gather-and-close"], ["cancel x", "pool-size -h", "apply"]])
+    cell("two sessions unusual conversion failure", tasks=0, sessions=[["apply zzz.qqq", "-h"], ["num-running", "map os.getcwd [1,", "nope"]])
     # a task that fails: flush / gather-and-close raise inside the awaited pool method
     cell("wait flush failing t2", tasks=2, fail=[0], sessions=[["flush", "num-running", "flush -r", H]])
     cell("wait gac failing t2 | help", tasks=2, fail=[1], sessions=[["gather-and-close", "nope"], ["-h", "num-ended"]])
